@@ -1273,9 +1273,173 @@ fn run_ticks(c: &Sexp) -> Sexp {
     Lst(vec![r1, Lst(vec![]), Lst(log)])
 }
 
+/// opcode 2: the view goes through the real response pipeline of the integrations:
+/// `leptos_integration_utils::ExtendResponse::from_app` (build_response: root owner + SSR shared
+/// context, the app rendered at the first poll, `ready_chunks(32)`, deferred (blocking)
+/// resources awaited before the first and between chunks, meta injection, the resource
+/// `<script>` chunks chained behind the app, `WithOwner`, the trailing chunk that unsets the
+/// owner) with a stream builder of the shape the axum / actix integrations pass in.
+/// events: (0 f) complete f | (1) poll the handler future / the response body | (2) tick.
+/// After the schedule: complete what is left, then alternate tick and poll until the body ends.
+mod pipeline {
+    use super::*;
+    use futures::StreamExt;
+    use leptos_integration_utils::{BoxedFnOnce, ExtendResponse, PinnedFuture, PinnedStream};
+
+    pub struct Resp(pub PinnedStream<String>);
+    impl ExtendResponse for Resp {
+        type ResponseOptions = ();
+        fn from_stream(stream: impl Stream<Item = String> + Send + 'static) -> Self {
+            Resp(Box::pin(stream))
+        }
+        fn extend_response(&mut self, _: &()) {}
+        fn set_default_content_type(&mut self, _: &str) {}
+    }
+
+    type Builder = fn(AnyView, BoxedFnOnce<PinnedStream<String>>, bool) -> PinnedFuture<PinnedStream<String>>;
+
+    fn stream_builder(mode: i64) -> Builder {
+        // integrations/axum render_app_to_stream_with_context_and_replace_blocks / render_app_to_stream_in_order…
+        match mode & 3 {
+            0 => |app, chunks, _| {
+                Box::pin(async move { Box::pin(app.to_html_stream_in_order().chain(chunks())) as PinnedStream<String> })
+            },
+            1 => |app, chunks, _| {
+                Box::pin(async move { Box::pin(app.to_html_stream_out_of_order().chain(chunks())) as PinnedStream<String> })
+            },
+            2 => |app, chunks, _| {
+                Box::pin(async move {
+                    Box::pin(app.to_html_stream_in_order_branching().chain(chunks())) as PinnedStream<String>
+                })
+            },
+            _ => |app, chunks, _| {
+                Box::pin(async move {
+                    Box::pin(app.to_html_stream_out_of_order_branching().chain(chunks())) as PinnedStream<String>
+                })
+            },
+        }
+    }
+
+    pub fn run(c: &Sexp) -> Sexp {
+        let mode = c.at(1).num();
+        let tree = parse(c.at(3));
+        let sched: Vec<(i64, u32)> =
+            c.at(5).list().iter().map(|e| (e.at(0).num(), e.at(1).num() as u32)).collect();
+        let mut futs = vec![];
+        futures_of(&tree, &mut futs);
+        exec::reset();
+        RES.with(|r| r.borrow_mut().clear());
+        let (r1, _) = reference(&tree, &futs);
+        exec::reset();
+        RES.with(|r| r.borrow_mut().clear());
+
+        let (rxs, mut txs) = channels(&tree, &futs);
+        let nonce_log: Arc<std::sync::Mutex<Option<Sexp>>> = Default::default();
+        let app_fn = {
+            let (tree, rxs) = (tree.clone(), rxs.clone());
+            move || {
+                create_resources(&tree, &rxs);
+                build(&tree, &rxs)
+            }
+        };
+        let additional_context = {
+            let (tree, nonce_log) = (tree.clone(), nonce_log.clone());
+            move || {
+                *nonce_log.lock().unwrap() = setup_nonce(mode, &tree);
+            }
+        };
+        let (_meta, meta_out) = leptos_meta::ServerMetaContext::new();
+        let mut handler: Option<Pin<Box<dyn Future<Output = Resp>>>> = Some(Box::pin(Resp::from_app(
+            app_fn,
+            meta_out,
+            additional_context,
+            (),
+            stream_builder(mode),
+            false,
+        )));
+        let mut body: Option<PinnedStream<String>> = None;
+        let count = CountWaker::simple();
+        let waker = Waker::from(count.clone());
+        let mut ended = false;
+        let mut log: Vec<Sexp> = vec![];
+        let mut step = |k: i64, f: u32, log: &mut Vec<Sexp>, ended: &mut bool| match k {
+            0 => {
+                if let Some(tx) = txs.remove(&f) {
+                    let _ = tx.send(());
+                }
+                log.push(Lst(vec![Num(3), Num(0)]));
+            }
+            1 => {
+                let mut cx = Context::from_waker(&waker);
+                if let Some(h) = handler.as_mut() {
+                    match h.as_mut().poll(&mut cx) {
+                        Poll::Pending => {
+                            log.push(Lst(vec![Num(0)]));
+                            return;
+                        }
+                        Poll::Ready(resp) => {
+                            handler = None;
+                            body = Some(resp.0);
+                        }
+                    }
+                }
+                match body.as_mut().unwrap().as_mut().poll_next(&mut cx) {
+                    Poll::Pending => log.push(Lst(vec![Num(0)])),
+                    Poll::Ready(Some(s)) => log.push(Lst(vec![Num(1), Sexp::from_str(&s)])),
+                    Poll::Ready(None) => {
+                        log.push(Lst(vec![Num(2)]));
+                        *ended = true;
+                    }
+                }
+            }
+            _ => {
+                exec::settle();
+                log.push(Lst(vec![Num(5)]));
+            }
+        };
+        for (k, f) in &sched {
+            if !ended {
+                step(*k, *f, &mut log, &mut ended);
+            }
+        }
+        let mut rest = futs.clone();
+        rest.sort();
+        rest.dedup();
+        let done: std::collections::BTreeSet<u32> =
+            sched.iter().filter(|(k, _)| *k == 0).map(|(_, f)| *f).collect();
+        for f in rest {
+            if !done.contains(&f) {
+                step(0, f, &mut log, &mut ended);
+            }
+        }
+        let mut n = 0;
+        while !ended {
+            if n >= POLL_BOUND {
+                log.push(Lst(vec![Num(9)]));
+                break;
+            }
+            step(2, 0, &mut log, &mut ended);
+            step(1, 0, &mut log, &mut ended);
+            n += 1;
+        }
+        drop(step);
+        drop(body);
+        drop(handler);
+        exec::reset();
+        RES.with(|r| r.borrow_mut().clear());
+        if let Some(e) = nonce_log.lock().unwrap().take() {
+            log.insert(0, e);
+        }
+        Lst(vec![r1, Lst(vec![]), Lst(log)])
+    }
+}
+
 fn run(c: &Sexp) -> Sexp {
     if c.at(0).num() == 1 {
         return run_ticks(c);
+    }
+    if c.at(0).num() == 2 {
+        return pipeline::run(c);
     }
     if c.at(0).num() != 0 {
         return Lst(vec![]);
